@@ -9,6 +9,7 @@ from mirsym.interp import Panic, Inconclusive
 from mirsym.values import *
 from mirsym.models.util import items, deref, variant, payload, some, none, unit, mkstr
 from native import oracle
+from mirsym.interp import last_seg
 from checks import hobl
 
 ALPHA = [ord('a'), ord('A'), ord('b')]
@@ -59,32 +60,181 @@ def c19_verdict(want_deny):
     return f
 
 
+# ------------------------------------------------------------------------------------------------ the plugin run on abstract statement trees
+# sqlparser's traversal is the ENVIRONMENT of the plugin: its documented contract (ast::Visitor) is modelled, the plugin's own code -- whatever it
+# hands to visit_relations / Visit::visit -- is executed from MIR.  A tree is
+#   ('query', [(cte name ident, subtree), ...], [item, ...])      item = ('rel', ObjectName) | ('target', ObjectName) | subtree
+# and the traversal order is the one #[derive(Visit)] produces for ast::Query: pre_visit_query, the WITH list in order (each definition is a
+# nested Query), the body (relations in source order; a DML target is visited like any relation), post_visit_query.
+def sql_struct(prog, sname, **vals):
+    name = sname
+    names = prog.src.structs.get('sqlparser::' + name) or prog.src.structs.get(name)
+    if not names:
+        raise Inconclusive('sqlparser struct %s not found in the vendored source' % name)
+    for k in vals:
+        if k not in names:
+            raise Inconclusive('sqlparser::%s has no field %s' % (name, k))
+    return Agg([vals.get(n, Opaque('sql.' + name + '.' + n, 'unmodelled')) for n in names], name, list(names))
+
+
+def mk_ident(ip, prog, bs, q):
+    qs = EnumV(bv(64, z3.ZeroExt(63, q.v)) if not q.concrete else BV(64, q.v), {'Some': [BV(32, ord('"'))]}, 'Option')
+    return sql_struct(prog, 'Ident', value=Seq(list(bs), 'string'), quote_style=qs)
+
+
+def mk_query(ip, prog, ctes):
+    """ast::Query as far as a visitor may look at it here: the WITH clause (names of the CTEs)."""
+    if not ctes:
+        return sql_struct(prog, 'Query', **{'with': none(ip)})
+    cts = [sql_struct(prog, 'Cte', alias=sql_struct(prog, 'TableAlias', name=idn, columns=Seq([], 'vec'))) for idn in ctes]
+    return sql_struct(prog, 'Query', **{'with': some(ip, sql_struct(prog, 'With', recursive=BV(1, 0), cte_tables=Seq(cts, 'vec')))})
+
+
+def cf_continue():
+    return EnumV(BV(64, 0), {'Continue': [unit()]}, 'ControlFlow')
+
+
+def is_break(ip, r):
+    return isinstance(r, EnumV) and ip.branch(r.discr.v == 1, 'break')
+
+
+def drive_tree(ip, prog, tree, on_query_pre, on_query_post, on_relation):
+    """Returns the ControlFlow::Break value the visitor produced, or None."""
+    kind, ctes, body = tree
+    q = Ptr(Cell(mk_query(ip, prog, [idn for idn, _ in ctes]), 'query'))
+    r = on_query_pre(q)
+    if r is not None:
+        return r
+    for _idn, sub in ctes:
+        r = drive_tree(ip, prog, sub, on_query_pre, on_query_post, on_relation)
+        if r is not None:
+            return r
+    for it in body:
+        if it[0] in ('rel', 'target'):
+            r = on_relation(Ptr(Cell(it[1], 'relation')))
+        else:
+            r = drive_tree(ip, prog, it, on_query_pre, on_query_post, on_relation)
+        if r is not None:
+            return r
+    return on_query_post(q)
+
+
+def install_traversal(ip, prog):
+    def tree_of(ip_, ast):
+        v = ast
+        for _ in range(3):
+            if isinstance(v, Ptr):
+                v = deref(ip_, v)
+        if not (isinstance(v, Opaque) and v.ty == 'Ast'):
+            raise Inconclusive('the plugin traverses something that is not the statement list it was given')
+        return v.data
+
+    def m_visit_relations(c, ast, closure):
+        ip_ = c.ip
+        cell = Cell(closure, 'visitor_fn')
+
+        def rel(p):
+            r = ip_.call_value(Ptr(cell, ()), [p])
+            return r if is_break(ip_, r) else None
+        r = drive_tree(ip_, prog, tree_of(ip_, ast), lambda q: None, lambda q: None, rel)
+        return r if r is not None else cf_continue()
+
+    def m_visit(c, ast, visitor):
+        ip_ = c.ip
+        vty = None
+        m = re.search(r'::visit::<(.*)>$', c.callee)
+        if m:
+            vty = last_seg(re.sub(r"<.*>$", '', m.group(1).strip()))
+        if not vty:
+            raise Inconclusive('cannot tell the visitor type in ' + c.callee)
+
+        def method(name):
+            fs = prog.lookup('<%s as Visitor>::%s' % (vty, name))
+            return fs[0] if len(fs) == 1 else None
+        unknown = [n for n in ('pre_visit_statement', 'post_visit_statement', 'pre_visit_expr', 'post_visit_expr', 'pre_visit_table_factor', 'post_visit_table_factor')
+                   if method(n) is not None]
+        if unknown:
+            raise Inconclusive('the visitor of table_access overrides %s: that part of the traversal contract is not modelled' % unknown)
+
+        def call(name, p):
+            fn_ = method(name)
+            if fn_ is None:
+                return None             # default method: ControlFlow::Continue(())
+            r = ip_.call_function(fn_, [visitor, p])
+            return r if is_break(ip_, r) else None
+
+        def rel(p):
+            r = call('pre_visit_relation', p)
+            return r if r is not None else call('post_visit_relation', p)
+        r = drive_tree(ip_, prog, tree_of(ip_, ast), lambda q: call('pre_visit_query', q), lambda q: call('post_visit_query', q), rel)
+        return r if r is not None else cf_continue()
+    ip.overrides += [(re.compile(r'^(?:sqlparser::ast::(?:visitor::)?)?visit_relations::<'), m_visit_relations),
+                     (re.compile(r'^<.* as (?:sqlparser::ast::(?:visitor::)?)?Visit>::visit::<'), m_visit)]
+
+
+def run_table_access(ip, prog, tree, listed):
+    """TableAccess::run (the real async fn) on an abstract statement list; returns True iff the verdict is Deny."""
+    runs = prog.lookup('<TableAccess as Plugin>::run')
+    if len(runs) != 1:
+        raise Inconclusive('cannot locate <TableAccess as Plugin>::run')
+    tables = Seq([mkstr(t, 'string') for t in listed], 'vec')
+    names = prog.src.structs['TableAccess']
+    ta = Agg([{'enabled': BV(1, 1), 'tables': Ptr(Cell(tables, 'tables'))}[n] for n in names], 'TableAccess', list(names))
+    ast = Ptr(Cell(Opaque('Ast', 'statements', tree), 'ast'))
+    fut = ip.call_function(runs[0], [Ptr(Cell(ta, 'plugin')), Ptr(Cell(Opaque('QueryRouter', 'qr'), 'qr')), ast])
+    for _ in range(3):
+        if isinstance(fut, Ptr):            # #[async_trait]: Pin<Box<dyn Future>>
+            fut = deref(ip, fut)
+    r = ip.drive(fut)
+    if variant(ip, r, 'Result') != 'Ok':
+        raise Inconclusive('TableAccess::run returned Err')
+    return variant(ip, payload(r, 'Ok')[0], 'PluginOutput') == 'Deny'
+
+
+def folded_eq(ip, bs, q, target):
+    """Does identifier (bytes, quoted flag) denote `target` under PostgreSQL's folding?  Decided on the current path."""
+    tgt = target.encode() if isinstance(target, str) else target
+    if len(bs) != len(tgt):
+        return False
+    quoted = ip.branch(q.v == 1, 'q') if not q.concrete else bool(q.v)
+    conds = []
+    for b, c in zip(bs, tgt):
+        conds.append(b.z() == c if quoted else z3.If(z3.And(z3.UGE(b.z(), 65), z3.ULE(b.z(), 90)), b.z() + 32, b.z()) == c)
+    return ip.branch(z3.And(*conds), 'denotes')
+
+
+def same_ident(ip, a, b):
+    """Two identifiers denote the same name after folding."""
+    (ba, qa), (bb, qb) = a, b
+    if len(ba) != len(bb):
+        return False
+
+    def fold(bs, q):
+        qd = ip.branch(q.v == 1, 'q') if not q.concrete else bool(q.v)
+        return [x.z() if qd else z3.If(z3.And(z3.UGE(x.z(), 65), z3.ULE(x.z(), 90)), x.z() + 32, x.z()) for x in bs]
+    fa, fb = fold(ba, qa), fold(bb, qb)
+    return ip.branch(z3.And(*[x == y for x, y in zip(fa, fb)]), 'same-name')
+
+
 def o1_match(chk, prog, lens, listed):
     name = 'O1-match-%s-listed-%s' % ('_'.join(map(str, lens)), listed)
     ob = chk.begin(name, 'the relation visitor of table_access on a relation name of %d identifier(s) (lengths %r over {a, A, b}, each quoted or not -- '
                    'symbolic) with %r on the deny list: denied iff PostgreSQL would resolve the name to that table (unquoted identifiers fold to '
                    'lower case, quoted ones are literal, the last component is the table)' % (len(lens), list(lens), listed),
                    {'identifier_lengths': list(lens), 'deny_list': [listed]})
-    cl = [f for n, f in prog.funcs.items() if 'table_access' in n and n.endswith('::run::{closure#0}::{closure#0}')]
-    if len(cl) != 1:
-        raise Inconclusive('cannot locate the relation visitor closure of TableAccess::run')
     ip = chk.interp(prog, name)
     ip.display_hook = display_object_name
+    install_traversal(ip, prog)
 
     def harness(ip_):
         ids = [sym_ident(ip_, n, i) for i, n in enumerate(lens)]
-        idents = [Agg([Seq(list(bs), 'string'), EnumV(BV(64, 0) if False else bv(64, z3.ZeroExt(63, q.v)), {'Some': [BV(32, ord('"'))]}, 'Option')], 'Ident')
-                  for bs, q in ids]
+        idents = [mk_ident(ip_, prog, bs, q) for bs, q in ids]
         on = Agg([Seq(idents, 'vec')], 'ObjectName')
-        tables = Seq([mkstr(listed, 'string')], 'vec')
-        found = Cell(none(ip_), 'found')
-        env = Closure('{closure@visit}', [Ptr(Cell(tables, 'tables')), Ptr(found, ())], ['tables', 'found'], cl[0], False)
         try:
-            r = ip_.call_function(cl[0], [Ptr(Cell(env, 'closure')), Ptr(Cell(on, 'relation'))])
+            denied = run_table_access(ip_, prog, ('query', [], [('rel', on)]), [listed])
         except Panic as p:
             raise Inconclusive('visitor panic: ' + p.msg)
         ob.nontrivial += 1
-        denied = r.discr.v == 1            # ControlFlow::Break
         # PostgreSQL resolution of the last component
         bs, q = ids[-1]
         quoted = ip_.branch(q.v == 1, 'lastq')
@@ -120,20 +270,122 @@ def o1_match(chk, prog, lens, listed):
     chk.end(ob)
 
 
+SHAPES = {
+    # name: (identifier slots, tree builder, SQL template)
+    'cte-ref': (['c', 'r1', 'r2'], lambda R, I: ('query', [(I['c'], ('query', [], [('rel', R['r1'])]))], [('rel', R['r2'])]),
+                'WITH {c} AS (SELECT * FROM {r1}) SELECT * FROM {r2}'),
+    'sibling': (['c1', 'c2', 'r1', 'r2', 'r3'],
+                lambda R, I: ('query', [(I['c1'], ('query', [], [('rel', R['r1'])])), (I['c2'], ('query', [], [('rel', R['r2'])]))], [('rel', R['r3'])]),
+                'WITH {c1} AS (SELECT * FROM {r1}), {c2} AS (SELECT * FROM {r2}) SELECT * FROM {r3}'),
+    'dml-target': (['c', 't'], lambda R, I: ('query', [(I['c'], ('query', [], []))], [('target', R['t'])]),
+                   'WITH {c} AS (SELECT 1 AS id) UPDATE {t} SET v = 1'),
+    'nested': (['c', 'r1', 'r2', 'r3'],
+               lambda R, I: ('query', [], [('query', [(I['c'], ('query', [], [('rel', R['r1'])]))], [('rel', R['r2'])]), ('rel', R['r3'])]),
+               'SELECT * FROM (WITH {c} AS (SELECT * FROM {r1}) SELECT * FROM {r2}) AS sq, {r3}'),
+    'qualified': (['c', 's.r'], lambda R, I: ('query', [(I['c'], ('query', [], []))], [('rel', R['s.r'])]),
+                  'WITH {c} AS (SELECT 1 AS id) SELECT * FROM {s.r}'),
+}
+
+
+def o2_scope(chk, prog, shape, listed='ab'):
+    slots, build, sql = SHAPES[shape]
+    name = 'O2-scope-%s' % shape
+    ob = chk.begin(name, 'TableAccess::run (real async fn) on the statement shape `%s` with every identifier SYMBOLIC (2 bytes over {a, A, b}, quoted or not) and '
+                   '%r on the deny list; sqlparser\'s traversal is modelled by its Visitor contract (pre_visit_query, the WITH list in order, the body, '
+                   'post_visit_query). Reference: PostgreSQL scoping -- an unqualified name is a CTE only if a CTE of that (folded) name is visible THERE: '
+                   'CTEs of enclosing queries, earlier siblings inside a WITH list, all of the query\'s CTEs in its body; never in the CTE\'s own '
+                   'definition, never for a qualified name, never for the target of INSERT/UPDATE/DELETE. If any relation resolves to the listed table the '
+                   'verdict must be Deny' % (sql, listed), {'shape': shape, 'identifier_length': 2, 'deny_list': [listed]})
+    ip = chk.interp(prog, name)
+    ip.display_hook = display_object_name
+    install_traversal(ip, prog)
+
+    def harness(ip_):
+        ids = {}
+        k = 0
+        for s in slots:
+            for part in s.split('.'):
+                ids[(s, part)] = sym_ident(ip_, 2, k)
+                k += 1
+        I = {s: mk_ident(ip_, prog, *ids[(s, s)]) for s in slots if '.' not in s and s.startswith('c')}
+        R = {s: Agg([Seq([mk_ident(ip_, prog, *ids[(s, p)]) for p in s.split('.')], 'vec')], 'ObjectName') for s in slots if not s.startswith('c')}
+        tree = build(R, I)
+        try:
+            denied = run_table_access(ip_, prog, tree, [listed])
+        except Panic as p:
+            raise Inconclusive('plugin panic: ' + p.msg)
+        ob.nontrivial += 1
+
+        # ---- reference: walk the same tree with PostgreSQL's scoping
+        must = []
+
+        def walk(tr, outer):
+            _k, ctes, body = tr
+            mine = []
+            for (idn, sub) in ctes:
+                slot = walk.slot_of[id(idn)]
+                walk_sub_scope = outer + mine            # earlier siblings only; not the CTE itself
+                walk(sub, walk_sub_scope)
+                mine = mine + [slot]
+            for it in body:
+                if it[0] in ('rel', 'target'):
+                    slot = walk.rslot_of[id(it[1])]
+                    parts = slot.split('.')
+                    last = ids[(slot, parts[-1])]
+                    is_cte = False
+                    if it[0] == 'rel' and len(parts) == 1:
+                        for cs in outer + mine:
+                            if same_ident(ip_, last, ids[(cs, cs)]):
+                                is_cte = True
+                                break
+                    if not is_cte and folded_eq(ip_, last[0], last[1], listed):
+                        must.append(slot)
+                else:
+                    walk(it, outer + mine)
+        walk.slot_of = {id(v): s for s, v in I.items()}
+        walk.rslot_of = {id(v): s for s, v in R.items()}
+        walk(tree, [])
+        if must and not denied:
+            m = ip_.model_for()
+
+            def render(slot):
+                out = []
+                for p in slot.split('.'):
+                    bs_, q_ = ids[(slot, p)]
+                    s_ = bytes(m.eval(b.z(), True).as_long() for b in bs_).decode()
+                    out.append('"%s"' % s_ if m.eval(q_.z(), True).as_long() else s_)
+                return '.'.join(out)
+            text = sql
+            for s in slots:
+                text = text.replace('{%s}' % s, render(s))
+            chk.report(ob, 'C19/O2/scope/%s' % shape, '`%s` is allowed although %s is the listed table %r there (a CTE of that name is not in scope at that position)' %
+                       (text, ', '.join(render(s) for s in must), listed), {'sql': text, 'deny_list': [listed]},
+                       {'commands': [{'op': 'table_access', 'tables': [listed], 'sql': text}], 'expect': ['c19_verdict', True]})
+        if len(ob.samples) < 2:
+            ob.samples.append({'denied': denied, 'required': bool(must)})
+    ip.explore(harness, max_paths=60000)
+    chk.absorb(ob, ip)
+    chk.end(ob)
+
+
 def _dispatch(chk, f, args):
     f(chk, *args)
 
 
 def main(chk):
     chk.explanation = (
-        'Solver-based checking of the table-name match of the table_access plugin executed from MIR: the relation-visitor closure of '
-        'TableAccess::run runs on symbolic relation names of 1-3 identifiers (bytes over {a, A, b}, each quoted or not) against a deny list; '
-        'the verdict must agree with PostgreSQL name resolution. Counterexamples are rendered to SQL and replayed through the real '
-        'parser + visit_relations + plugin.')
+        'Solver-based checking of the table_access plugin executed from MIR: the real async TableAccess::run is run on abstract statement lists, '
+        'with sqlparser\'s traversal (visit_relations / Visit::visit with a Visitor of the plugin\'s own) modelled by its documented call contract and '
+        'everything the plugin itself does -- name folding, matching, any scoping logic -- executed symbolically. (O1) a single relation name of 1-3 '
+        'identifiers (bytes over {a, A, b}, each quoted or not) against a deny list: the verdict must agree with PostgreSQL name resolution. (O2) '
+        'statement shapes with common table expressions (reference to a CTE, a CTE\'s own definition, sibling CTEs, DML target, nested subquery, '
+        'qualified name), every identifier symbolic: whenever PostgreSQL would read the listed TABLE at some position the verdict must be Deny. '
+        '(H) enforcement in Client::handle. Counterexamples are rendered to SQL and replayed through the real parser + traversal + plugin.')
     chk.assumptions += [
         "sqlparser's Display for ObjectName/Ident as modelled in checks/c19.py (parts joined by '.', quoted identifiers written with their quotes)",
-        'coverage of statement shapes by sqlparser::visit_relations, plugin ordering in execute_plugins, the enforcement points in Client::handle '
-        'and the intercept plugin are outside the claim',
+        'sqlparser traversal contract as modelled in checks/c19.py: ast::Query is visited as pre_visit_query, the WITH list in order (each definition a nested Query), '
+        'the body in source order (a DML target like any relation), post_visit_query; that sqlparser reports EVERY relation of every statement shape is its contract, not decided here',
+        'a visitor that overrides statement / expression / table-factor hooks is answered inconclusive',
     ]
     prog = chk.program('on', with_sqlparser=True)
     tasks = []
@@ -144,6 +396,8 @@ def main(chk):
     if chk.thorough:
         tasks.append((o1_match, (prog, (3,), 'aba')))
         tasks.append((o1_match, (prog, (2, 2, 2), 'ab')))
+    for shape in SHAPES:
+        tasks.append((o2_scope, (prog, shape)))
     chk.parallel(_dispatch, tasks)
 
     hobl.handle_obligations(chk, chk.program('on'), {'C19'}, ['plugins'])
